@@ -285,6 +285,7 @@ class FakeWriter:
         self.bytes_written = 0
         self.close_calls = 0
         self.capture = None
+        self.reset = False  # the connection was lost with an error (not an orderly EOF)
 
     def write(self, data):
         self.writes += 1
@@ -325,6 +326,9 @@ class FakeWriter:
         self.unblock()
 
     async def wait_closed(self):
+        # asyncio.StreamWriter.wait_closed() re-raises the exception the connection was lost with
+        if self.reset:
+            raise ConnectionResetError('simnet: connection was reset')
         return
 
     def is_closing(self):
@@ -582,6 +586,8 @@ class Conn:
         if fail_writes:
             for w in self.writer.values():
                 w.fail_writes = True
+                if mode == 'error':
+                    w.reset = True
                 w.unblock()
 
 
